@@ -77,11 +77,12 @@ func (c *Ctx) c12ObjectBulk(doc []byte, pj *simdjson.ParsedJson, p position, dup
 	for _, m := range ms {
 		fmt.Fprintf(&want, "k%x;%s|", m.key, m.dump)
 	}
+	prevElems := reusedElems // filled by the PREVIOUS object this check looked at
 	for round := 0; round < 2; round++ {
 		// round 0: fresh destination; round 1: destination reused from an earlier object
 		var dst *simdjson.Elements
 		if round == 1 {
-			dst = reusedElems
+			dst = prevElems
 			if dst == nil {
 				continue
 			}
